@@ -23,6 +23,7 @@ func checkC07(p *Prog, res *Result, tier string) {
 	res.rule("C07-R3", "previous version only when superseded; marker never deleted before the version it hides", 2)
 	res.rule("C07-R4", "skip test before each engine delete; failures reach the skipped-key update; non-CAS errors set the skipped key", 5)
 	res.rule("C07-R5", "compaction revision clamp (C09-R2)", 1)
+	res.rule("C07-R8", "the expiry branch of the compaction scan removes an index record only by compare-and-delete (C17-R3)", 1)
 	res.rule("C07-R7", "the compaction scan covers every record of its interval: partition borders contiguous and realigned to index keys (C13-R5)", 2)
 	res.rule("C07-R6", "every adapter's compare-and-delete compares the stored value / version before deleting (C11-R1); the metrics wrapper forwards deletes unchanged and returns their error (C11-R5)", 6)
 
@@ -509,6 +510,20 @@ func checkC07(p *Prog, res *Result, tier string) {
 	checkBorderContiguity(p, r, sub13, sp)
 	for _, o := range sub13.Obls {
 		res.add("C07-R7", o.Rule+" "+o.Construct, o.Status, o.Pos, o.Detail)
+	}
+
+	// ---- R8: expiry deletes of index records (C17-R3) ----
+	{
+		sub17 := newResult("C17")
+		saved := c17NoImports
+		c17NoImports = true
+		checkC17(p, sub17, tier)
+		c17NoImports = saved
+		for _, o := range sub17.Obls {
+			if o.Rule == "C17-R3" {
+				res.add("C07-R8", o.Rule+" "+o.Construct, o.Status, o.Pos, o.Detail)
+			}
+		}
 	}
 
 }
